@@ -283,6 +283,44 @@ theorem builtin_hooks_bind (o : Obs C D V) (hasC : Bool) (bs : List Builtin) :
   intro b _
   cases b <;> cases hasC <;> rfl
 
+omit [LT D] [DecidableLT D] in
+/-- a hook's local variables play no role in the binding (only its arguments are looked up) … -/
+theorem allBound_withLocals (hasC : Bool) (ls le : List String) :
+    allBound hasC (cbs.map (Callback.withLocals ls le)) = allBound hasC cbs := by
+  simp only [allBound, List.all_map]
+  congr 1
+  funext cb
+  cases hs : cb.onStart <;> cases he : cb.onEnd <;> simp [Callback.withLocals, hs, he, Hook.bound]
+
+/-- … nor anywhere else: `fit` behaves identically whatever local variables the hooks use -/
+theorem fit_withLocals (hasC : Bool) (ls le : List String) (maxIter : Int) (old : List (String × V)) :
+    fit step diff tol (cbs.map (Callback.withLocals ls le)) hasC maxIter init old
+      = fit step diff tol cbs hasC maxIter init old := by
+  have hs : ∀ k c, startEvents (cbs.map (Callback.withLocals ls le)) k c = startEvents cbs k c := by
+    intro k c
+    simp only [startEvents, List.filterMap_map]
+    congr 1; funext cb
+    cases h : cb.onStart <;> simp [Callback.withLocals, h]
+  have he : ∀ k c c' d, endEvents (cbs.map (Callback.withLocals ls le)) k c c' d
+      = endEvents cbs k c c' d := by
+    intro k c c' d
+    simp only [endEvents, List.filterMap_map]
+    congr 1; funext cb
+    cases h : cb.onEnd <;> simp [Callback.withLocals, h]
+  have hi : iterate step diff (cbs.map (Callback.withLocals ls le)) = iterate step diff cbs := by
+    funext s; simp only [iterate, hs, he]
+  have hl : ∀ fuel (s : St C D V),
+      loop step diff tol (cbs.map (Callback.withLocals ls le)) fuel s = loop step diff tol cbs fuel s := by
+    intro fuel
+    induction fuel with
+    | zero => intro s; rfl
+    | succ fuel ih =>
+        intro s
+        show (if below tol (iterate step diff (cbs.map (Callback.withLocals ls le)) s).last then _ else _)
+          = (if below tol (iterate step diff cbs s).last then _ else _)
+        rw [hi, ih]
+  simp only [fit, pirls, hl, allBound_withLocals]
+
 /-! ## non-vacuity: a concrete run (coefficients = iteration index, diffs 8, 4, 2, 1, …) -/
 
 private def exDiff : Nat → Nat → Nat := fun k _ => 8 / 2 ^ k
